@@ -557,6 +557,49 @@ def label(ctx: Any) -> List[Ob]:
     return obs
 
 
+@rule('C01.NAMELEN', 'D', expect_min=1)
+def namelen01(ctx: Any) -> List[Ob]:
+    """Encoder / decoder agreement on the total length of a name: the decoder refuses a name longer than its limit (and with
+    it the whole datagram), so the encoder must refuse the same names with NamePartTooLongException -- `rejected or recovered`."""
+    R = 'C01.NAMELEN'
+    prog = ctx.prog
+    out = prog.cls(OUT)
+    obs: List[Ob] = []
+    # total name length: what the decoder refuses (a name longer than its limit invalidates the whole datagram) the encoder
+    # must refuse as well, with NamePartTooLongException, in the same unit (characters of the dotted name)
+    rn = prog.func(INC + '._read_name')
+    dec_lim = None
+    for t in cfg_of(rn.node).nodes:
+        if t.kind == 'test' and isinstance(t.ast, ast.Compare):
+            try:
+                pp, oo = lf.comparison(prog, rn.module, t.ast, lambda x: 'N' if isinstance(x, ast.Call) and norm(x.func) == 'len' and x.args and isinstance(x.args[0], ast.Name) else None)
+            except lf.NotLinear:
+                continue
+            if set(pp) - {()} == {(('N', 1),)} and any(s_.kind == 'raise' for s_, lab in t.succ if lab is True):
+                c_ = float(-pp.get((), 0) / pp[(('N', 1),)])
+                # N - K > 0 normalised as -(N) + K < 0: largest accepted length
+                dec_lim = int(c_) if oo in ('<',) else int(c_) - 1
+    obs.append(ob(R, rn, 'unit and value of the decoder limit on the total length of a name', 'the decoder accepts every name of at most 253 characters of decoded text (the limit is a character count of the dotted name; a byte count would refuse non-ASCII names the encoder emits)', dec_lim == 253, f'the limit test was read as: at most {dec_lim} (None = not a test of len(<name>) against a constant)'))
+    wn_ = out.methods['write_name']
+    enc_lim = None
+    stripped = any(isinstance(st, ast.Assign) and isinstance(st.value, ast.Subscript) and isinstance(st.value.slice, ast.Slice) and norm(st.targets[0]) == wn_.params[1] for st in walk_local_ordered(wn_.node))
+    wcfg = cfg_of(wn_.node)
+    for t in wcfg.nodes:
+        if t.kind == 'test' and isinstance(t.ast, ast.Compare):
+            try:
+                pp, oo = lf.comparison(prog, wn_.module, t.ast, lambda x: 'N' if isinstance(x, ast.Call) and norm(x.func) == 'len' and x.args and norm(x.args[0]) == wn_.params[1] else None)
+            except lf.NotLinear:
+                continue
+            if set(pp) - {()} == {(('N', 1),)} and any(s_.kind == 'raise' and 'NamePartTooLong' in norm(s_.ast) for s_, lab in t.succ if lab is True):
+                c_ = float(-pp.get((), 0) / pp[(('N', 1),)])
+                lim = int(c_) if oo == '<' else int(c_) - 1
+                # the test may sit before or after the trailing dot is stripped; normalise to `with the dot`, as the decoder counts
+                after_strip = any(n.kind == 'stmt' and isinstance(n.ast, ast.Assign) and norm(n.ast.targets[0]) == wn_.params[1] and wcfg.dominates(n, t) for n in wcfg.nodes) or any(n.kind == 'test' and 'endswith' in norm(n.ast) and wcfg.dominates(n, t) for n in wcfg.nodes)
+                enc_lim = lim + 1 if (stripped and after_strip) else lim
+    obs.append(ob(R, wn_, 'total length of a name: write_name (encoder) against _read_name (decoder)', 'the encoder raises NamePartTooLongException for every name the decoder would refuse as too long (no datagram is emitted that the decoder invalidates for its name length)', dec_lim is not None and enc_lim is not None and enc_lim <= dec_lim, f'decoder accepts at most {dec_lim} characters (with the final dot); ' + ('write_name has no total-length test raising NamePartTooLongException' if enc_lim is None else f'encoder accepts up to {enc_lim}')))
+    return obs
+
+
 @rule('C01.ROLLBACK', 'N', expect_min=6)
 def rollback(ctx: Any) -> List[Ob]:
     """Per-packet state discipline of the message builder: the fields mutated while
@@ -756,4 +799,4 @@ EXPLANATION = (
     '(necessary): bit numbering of the NSEC bitmap on both sides. C01.STATELESS (necessary): nothing reachable from the builder mutates module-level containers (also through local aliases). Not decided: round-trip equality of values, compression-offset '
     'arithmetic and packet split positions [X].'
 )
-RULES = [layout, prims, label, rollback, flushbit, nsecbits, stateless]
+RULES = [layout, prims, label, namelen01, rollback, flushbit, nsecbits, stateless]
